@@ -133,6 +133,9 @@ def run(rep: Report, tier: str) -> None:  # noqa: C901
     hl = _fn(P, f"{MOD}._handle_literal")
     _check_literals(P, G, rep, hl, S)
 
+    rep.rule("R24.10", "optional scalar fields (error code / level ...) are tested for presence with `is None`, never by truth value")
+    _check_presence_tests(P, rep, S, "R24.10", pretty=True)
+
     # ---------------- R24.4 text rewriting ----------------
     rep.rule("R24.4", "no quote-unaware rewriting of rendered text in the renderer and in the SDMX generator")
     _check_rewrites(P, rep, [f for f in P.iter_functions() if f.module is mod] +
@@ -823,6 +826,62 @@ def _check_comments(P: Program, rep: Report, S) -> None:
     rep.instance("R24.7", "comment-written")
     if vc is None or not any(isinstance(n, ast.AugAssign) and src(n.target) == "self.vtl_script" for n in ast.walk(vc.node)):
         rep.add(_finding("R24.7", "comment-written", vc or S.methods["visit_Start"], (vc or S.methods["visit_Start"]).node.lineno, "visit_Comment does not append the comment to the output script"))
+
+
+def _check_presence_tests(P: Program, rep: Report, S, rule: str, pretty: bool = True) -> None:
+    """A node field declared Optional[<scalar>] (str / int / float / bool inside the Optional) has falsy values that are not absence:
+    errorlevel 0, errorcode "".  The renderer decides whether to write the clause by a test on the field; that test must be
+    `is [not] None` - a truthiness test drops the clause for 0 / "" / False and the text denotes another script.
+    Sites are attributed to the rendering mode by the enclosing `if self.pretty` branch."""
+    A = P.module("vtlengine.AST")
+    falsy_fields: Dict[str, str] = {}
+    for c in A.classes.values():
+        for st in c.node.body:
+            if isinstance(st, ast.AnnAssign) and isinstance(st.target, ast.Name):
+                ann = src(st.annotation)
+                if ann.startswith("Optional[") and re.search(r"\b(str|int|float|bool)\b", ann) and "List[" not in ann:
+                    falsy_fields[st.target.id] = ann
+    if len(falsy_fields) < 4:
+        raise AnalysisError("vtlengine.AST: Optional scalar fields (error_code, erLevel, ...) not found")
+    n = 0
+    for f in S.methods.values():
+        parents: Dict[int, ast.AST] = {}
+        for x in ast.walk(f.node):
+            for ch in ast.iter_child_nodes(x):
+                parents[id(ch)] = x
+
+        def mode_of(x: ast.AST) -> Optional[bool]:
+            """True: pretty only, False: compact only, None: both"""
+            cur, prev = parents.get(id(x)), x
+            while cur is not None:
+                if isinstance(cur, ast.If) and src(cur.test) in ("self.pretty", "not self.pretty"):
+                    in_body = any(prev is b for b in cur.body)
+                    in_else = any(prev is b for b in cur.orelse)
+                    if in_body or in_else:
+                        return in_body == (src(cur.test) == "self.pretty")
+                prev, cur = cur, parents.get(id(cur))
+            return None
+        for x in ast.walk(f.node):
+            if not isinstance(x, (ast.If, ast.IfExp, ast.While)):
+                continue
+            t = x.test
+            for o in (t.values if isinstance(t, ast.BoolOp) else [t]):
+                core = o.operand if isinstance(o, ast.UnaryOp) and isinstance(o.op, ast.Not) else o
+                is_none_test = isinstance(core, ast.Compare) and len(core.ops) == 1 and isinstance(core.ops[0], (ast.Is, ast.IsNot)) \
+                    and isinstance(core.comparators[0], ast.Constant) and core.comparators[0].value is None and isinstance(core.left, ast.Attribute)
+                attr = core.left if is_none_test else core
+                if not (isinstance(attr, ast.Attribute) and isinstance(attr.value, ast.Name) and attr.value.id != "self" and attr.attr in falsy_fields):
+                    continue
+                md = mode_of(x)
+                if md is not None and md != pretty:
+                    continue
+                n += 1
+                rep.instance(rule, f"presence/{f.name}/{attr.attr}", nontrivial=True)
+                if not is_none_test:
+                    rep.add(_finding(rule, f"presence/{f.name}/{attr.attr}", f, x.lineno,
+                                     f"{f.name} decides whether to write `{attr.attr}` by the truth value of `{src(attr)}` ({falsy_fields[attr.attr]}): for the legal values 0, 0.0, \"\" "
+                                     f"and false the clause is left out of the rendered text, which then denotes a script without it (errorlevel 0 comes back as null)"))
+    rep.floor(f"{rule} presence tests", n, 4)
 
 
 def _check_flags(P: Program, rep: Report, S) -> None:
